@@ -160,7 +160,7 @@ def check_rejection(chk, prog, env, model):
         alloc_may_fail = True
 
         def keep_event(self, ev):
-            return ev[0] == 'api' and ev[1] in ('json_loads', 'jwt_str_alg', 'jwt_base64uri_decode')
+            return ev[0] == 'api' and ev[1] in ('json_loads', 'json_loadb', 'jwt_str_alg', 'jwt_base64uri_decode')
     it = Interp(prog, unit, model=model, rule=R(), hooks=H.std_hooks(env))
     st = State()
     jwt = ('obj', 'jwt')
@@ -171,14 +171,14 @@ def check_rejection(chk, prog, env, model):
     for s, rv in res:
         n += 1
         ok = isinstance(rv, Int) and rv.v == 0
-        loads = [e for e in s.trace if e[0] == 'api' and e[1] == 'json_loads']
+        loads = [e for e in s.trace if e[0] == 'api' and e[1] in ('json_loads', 'json_loadb')]
         good_loads = [e for e in loads if isinstance(e[2], Ref)]
         decs = [e for e in s.trace if e[0] == 'api' and e[1] == 'jwt_base64uri_decode']
         alg = s.mem.get((jwt, 'alg'))
         if ok:
             problems = []
             if len(good_loads) < 2 or len(loads) != len(good_loads):
-                problems.append('header and payload were not both parsed as JSON (%d successful json_loads)' % len(good_loads))
+                problems.append('header and payload were not both parsed as JSON (%d successful JSON parses)' % len(good_loads))
             if any(e[2] is NULL for e in decs) or len(decs) < 2:
                 problems.append('a segment that failed to base64-decode is accepted')
             if isinstance(alg, Int):
@@ -453,10 +453,9 @@ def check_json_terminated(chk, prog, env, model, eff, rulename='C06.decoded-text
                         return
                     want = '[%r]' % (('term', dl),)
                     z = st.ts.get('zeroed', {}).get(args[0].loc, set())
-                    if name == 'json_loadb':
-                        ok = len(args) > 1 and isinstance(args[1], Term) and args[1].k == dl
-                    else:
-                        ok = (want, True) in z
+                    ok = (want, True) in z          # a string: terminated at its decoded length
+                    if name == 'json_loadb' and len(args) > 1 and isinstance(args[1], Term) and args[1].k == dl:
+                        ok = True                   # or parsed with exactly the decoded length
                     events.append((ok, node_loc(node), sorted(z, key=repr)))
         it = Interp(prog, k[0], model=model, rule=R(), hooks=H.std_hooks(env))
         it.run(k[1], args, st)
